@@ -1282,6 +1282,8 @@ func replayC20(c *Ctx, op string, args []string) bool {
 	case "cache.nil":
 		seed, _ := strconv.ParseInt(m["seed"], 10, 64)
 		c20NilRun(c, c20Atoi(m["G"]), c20Atoi(m["R"]), c20Atoi(m["gmp"]), seed)
+	case "conn.drain":
+		c20ConnDrain(c, m["kind"], c20Atoi(m["n"]), c20Atoi(m["delay"]), c20Atoi(m["slow"]))
 	case "cache.fold":
 		seed, _ := strconv.ParseInt(m["seed"], 10, 64)
 		c20FoldRun(c, c20Atoi(m["G"]), c20Atoi(m["n"]), c20Atoi(m["T"]), c20Atoi(m["gmp"]), seed)
@@ -1375,6 +1377,10 @@ func genC20(c *Ctx) {
 	for i := 0; locksOK && i < c.N(100, 800); i++ {
 		capN := []int{-1, 0, 1, 2, 5, 10, 11, 50}[c.R.Intn(8)]
 		c20PlRun(c, capN, 2+c.R.Intn(15), c.N(200, 1000), c.R.Int63n(1<<40))
+	}
+	// bot.Conn on top of the queues: the peer closes while the consumer lags behind the reader
+	for i := 0; i < c.N(32, 200); i++ {
+		c20GenConnDrain(c, i)
 	}
 	// pools: streams whose writer fails, next to healthy streams that hold their pooled buffer across yields
 	for i := 0; i < c.N(8, 40); i++ {
